@@ -6,9 +6,9 @@
    print_in_data_block (s_flags s : five booleans, universally quantified — no sampling), any data block.
    [ops : list op] is any history of flips, new / copied / appended / removed / reordered cells and per-cell edits.
    [wf] is the invariant of every state reached from a read file (C09_read_wf, C09_history_invariant).
-   [clean] is the decidable side condition that excludes exactly the defects of the current code (each has a
-   _refuted theorem with a computed witness, replayed on the real MontePy by the harness) and the two documented
-   refusals (ParticleTypeNotInCell, "Fill can not be in the data block").  [sclean] is its flag-independent form. *)
+   [clean] is a decidable side condition: the partition condition on the importance trees of the cells (needed
+   only when IMP is printed in the cell block) and the two documented refusals (ParticleTypeNotInCell, "Fill can
+   not be in the data block").  [sclean] is its flag-independent form. *)
 From Coq Require Import List String ZArith Bool.
 From MPV Require Import Model.Wire Model.Place Proofs.PlaceProofs.
 From MPV Require Model.Write Gen.Writer.
@@ -42,94 +42,75 @@ Definition st (f : file) (ops : list op) : state :=
 Definition n : particle := 0%nat.
 Definition p : particle := 1%nat.
 
-(* the full-strength statement is false of the current code; witnesses (each is a finding or a proposed repair):
-   (a) LAT given in the data block, then print_in_data_block["lat"] = False: the cell card says LAT=None *)
+(* Five defects that made the statement false without further side conditions were repaired in /repo after this
+   check found them (their witnesses are now Examples of the repaired behaviour, and corpus/C09/fixed-*.json
+   replays them on the real code):
+     929de16 LAT=None on the cell card      0e28d06 a new importance tree labelled with all of MODE
+     cba7f60 IMP:n=0.0 in a 'mode p' problem   e7a2fbb Cell() without universe, U in the data block
+     277027d del cell.volume, VOL in the data block
+   What is left in [clean]: the partition condition on importance trees (true of every tree MontePy builds by
+   parsing, pushing, setting and splitting; `del cell.importance.<particle>` on a particle that shares a tree can
+   leave a stale classifier entry, which the real code and the model still write correctly, but which the proof
+   does not cover), trees of MODE particles naming MODE particles only (an input with 'imp:n,p=1' and 'mode p'
+   makes MontePy raise ParticleTypeNotInProblem), and the two documented refusals. *)
+
+(* (a) LAT given in the data block, then print_in_data_block["lat"] = False: the cell card says LAT=1 *)
 Definition f_lat : file :=
   mkFile [n] [mkFC 1 [([n], 1)] None None None (Some 5) false; mkFC 2 [([n], 1)] None (Some 5) None None false]
          [FOther; FVec CLat [None; Some 1]].
 Definition s_lat : state := Eval vm_compute in st f_lat [OFlip CLat false].
-Theorem C09_exactly_once_refuted_lattice : exists s, wf s /\ ~ exactly_once s.
-Proof.
-  exists s_lat. split.
-  - split; vm_compute; repeat constructor; simpl; intuition discriminate.
-  - intros [w [Hw H]]. vm_compute in Hw. injection Hw as <-.
-    destruct (H 1%nat _ eq_refl) as [es [He [Ho _]]]. vm_compute in He. injection He as <-.
-    destruct (Ho CLat ltac:(discriminate)) as [A _]. vm_compute in A. discriminate.
-Qed.
-Print Assumptions C09_exactly_once_refuted_lattice.
+Example C09_repaired_lattice :
+  clean s_lat = true /\
+  write s_lat = Ok (mkW [(1, [EImp [n] 1; EOne CFill (WV 5)]); (2, [EImp [n] 1; EOne CU (WV 5); EOne CLat (WV 1)])] [DOther]).
+Proof. split; vm_compute; reflexivity. Qed.
 
-(* (b) a new cell appended to a MODE n p problem, importances set afterwards: neutron is written twice *)
+(* (b) a new cell appended to a MODE n p problem, importances set afterwards: one entry per particle *)
 Definition f_np : file := mkFile [n; p] [mkFC 1 [([n; p], 1)] None None None None false] [FOther].
 Definition s_newimp : state :=
-  Eval vm_compute in st f_np [ONew 9; OAppend; OSetImp (TCell 9) n 1; OSetImp (TCell 9) p 1; OFlip CImp false].
-Theorem C09_exactly_once_refuted_new_importance : exists s, wf s /\ ~ exactly_once s.
-Proof.
-  exists s_newimp. split.
-  - split; vm_compute; repeat constructor; simpl; intuition discriminate.
-  - intros [w [Hw H]]. vm_compute in Hw. injection Hw as <-.
-    destruct (H 1%nat _ eq_refl) as [es [He [_ Hi]]]. vm_compute in He. injection He as <-.
-    specialize (Hi n). vm_compute in Hi. destruct Hi as [_ [A|[A _]]]; discriminate.
-Qed.
-Print Assumptions C09_exactly_once_refuted_new_importance.
-
-(* (b') the same with two different values: write_to_file raises ValueError (list.remove(x): x not in list) *)
-Definition s_newimp2 : state :=
   Eval vm_compute in st f_np [ONew 9; OAppend; OSetImp (TCell 9) n 1; OSetImp (TCell 9) p 2; OFlip CImp false].
-Theorem C09_exactly_once_refuted_new_importance_crash :
-  exists s, wf s /\ write s = Err EListRemove /\ ~ exactly_once s.
-Proof.
-  exists s_newimp2. split; [|split].
-  - split; vm_compute; repeat constructor; simpl; intuition discriminate.
-  - vm_compute. reflexivity.
-  - intros [w [Hw _]]. vm_compute in Hw. discriminate.
-Qed.
-Print Assumptions C09_exactly_once_refuted_new_importance_crash.
+Example C09_repaired_new_importance :
+  clean s_newimp = true /\
+  write s_newimp = Ok (mkW [(1, [EImp [n; p] 1]); (9, [EImp [n] 1; EImp [p] 2])] [DOther]).
+Proof. split; vm_compute; reflexivity. Qed.
 
-(* (c) MODE p, IMP:p in the data block, then print_in_data_block["imp"] = False: every cell card gets IMP:n=0.0,
-       an importance for a particle the problem does not have *)
+(* (b') cell.importance.neutron = 2 on 'imp:n,p=1' splits the neutron off (11534b6) *)
+Example C09_unshare :
+  write (st f_np [OSetImp (TCell 1) n 2; OFlip CImp false]) = Ok (mkW [(1, [EImp [n] 2; EImp [p] 1])] [DOther]) /\
+  clean (st f_np [OSetImp (TCell 1) n 2; OFlip CImp false]) = true.
+Proof. split; vm_compute; reflexivity. Qed.
+
+(* (c) MODE p, IMP:p in the data block, then print_in_data_block["imp"] = False: no IMP:n on the cell cards *)
 Definition f_modep : file :=
   mkFile [p] [mkFC 1 [] None None None None false; mkFC 2 [] None None None None false] [FImp [p] [1; 0]].
 Definition s_modep : state := Eval vm_compute in st f_modep [OFlip CImp false].
-Theorem C09_exactly_once_refuted_mode : exists s, wf s /\ ~ exactly_once s.
-Proof.
-  exists s_modep. split.
-  - split; vm_compute; repeat constructor; simpl; intuition discriminate.
-  - intros [w [Hw H]]. vm_compute in Hw. injection Hw as <-.
-    destruct (H 0%nat _ eq_refl) as [es [He [_ Hi]]]. vm_compute in He. injection He as <-.
-    specialize (Hi n). vm_compute in Hi. destruct Hi as [A _]. discriminate.
-Qed.
-Print Assumptions C09_exactly_once_refuted_mode.
+Example C09_repaired_mode :
+  clean s_modep = true /\ write s_modep = Ok (mkW [(1, [EImp [p] 1]); (2, [EImp [p] 0])] []).
+Proof. split; vm_compute; reflexivity. Qed.
 
-(* (d) a cell made by Cell() appended while U is printed in the data block: AttributeError *)
+(* (d) a cell made by Cell() appended while U is printed in the data block: its entry is a jump *)
 Definition f_u : file :=
   mkFile [n] [mkFC 1 [([n], 1)] None None None (Some 5) false; mkFC 2 [([n], 1)] None (Some 5) None None false] [FOther].
 Definition s_u : state := Eval vm_compute in st f_u [ONew 9; OSetImp TScratch n 1; OAppend; OFlip CU true].
-Theorem C09_exactly_once_refuted_universe : exists s, wf s /\ write s = Err ENoneUniverse /\ ~ exactly_once s.
-Proof.
-  exists s_u. split; [|split].
-  - split; vm_compute; repeat constructor; simpl; intuition discriminate.
-  - vm_compute. reflexivity.
-  - intros [w [Hw _]]. vm_compute in Hw. discriminate.
-Qed.
-Print Assumptions C09_exactly_once_refuted_universe.
+Example C09_repaired_universe :
+  clean s_u = true /\
+  write s_u = Ok (mkW [(1, [EImp [n] 1; EOne CFill (WV 5)]); (2, [EImp [n] 1]); (9, [EImp [n] 1])]
+                      [DOther; DMod CU [(None, [None; Some 5; None])]]).
+Proof. split; vm_compute; reflexivity. Qed.
 
-(* (e) del cell.volume while VOL is printed in the data block: AttributeError *)
+(* (e) del cell.volume while VOL is printed in the data block *)
 Definition f_vol : file :=
   mkFile [n] [mkFC 1 [([n], 1)] (Some 7) None None None false; mkFC 2 [([n], 1)] None None None None false] [FOther].
 Definition s_vol : state := Eval vm_compute in st f_vol [ODelVol (TCell 2); OFlip CVol true].
-Theorem C09_exactly_once_refuted_volume : exists s, wf s /\ write s = Err ENoneVolume /\ ~ exactly_once s.
-Proof.
-  exists s_vol. split; [|split].
-  - split; vm_compute; repeat constructor; simpl; intuition discriminate.
-  - vm_compute. reflexivity.
-  - intros [w [Hw _]]. vm_compute in Hw. discriminate.
-Qed.
-Print Assumptions C09_exactly_once_refuted_volume.
+Example C09_repaired_volume :
+  clean s_vol = true /\
+  write s_vol = Ok (mkW [(1, [EImp [n] 1]); (2, [EImp [n] 1])] [DOther; DMod CVol [(None, [Some 7; None])]]).
+Proof. split; vm_compute; reflexivity. Qed.
 
-(* each witness violates the side condition, and only in the named conjunct *)
-Example C09_witnesses_are_outside_clean :
-  (lat_ok s_lat, imp_cell_ok s_newimp, imp_cell_ok s_newimp2, imp_cell_ok s_modep, u_ok s_u, vol_ok s_vol)
-  = (false, false, false, false, false, false).
+(* the side condition is not vacuous the other way either: a state outside [clean] (a classifier that names a
+   particle the cell holds nothing for, which no sequence of reads, sets and appends produces) *)
+Example C09_outside_clean :
+  clean (mkS [n; p] [mkC 1 [([n], mkT 1 [n] [n]); ([p], mkT 1 [n; p] [p])] true VNone false (Some 0) false None false None false false]
+             None (mkF false true true true true) []) = false.
 Proof. vm_compute. reflexivity. Qed.
 
 (* ---------------------------------------------------------------- 2. alignment (no side condition) *)
@@ -211,12 +192,13 @@ Example C09_ex_history :
   map c_num (s_cells (run_ops s_ex [OFlip CImp false; OFlip CU true; ORemove 2; OReorder [5; 1]; OFlip CVol false])) = [5; 1].
 Proof. split; vm_compute; reflexivity. Qed.
 
-(* a history with a new cell that ends clean: the importances are set before the cell is appended, and U too *)
+(* histories with a new cell that end clean: importances set before or after the cell is appended *)
 Example C09_ex_new_cell :
-  clean (run_ops s_ex [ONew 9; OSetImp TScratch n 2; OSetImp TScratch p 2; OSetU TScratch 0; OAppend]) = true.
-Proof. vm_compute. reflexivity. Qed.
+  clean (run_ops s_ex [ONew 9; OSetImp TScratch n 2; OSetImp TScratch p 2; OAppend]) = true /\
+  clean (run_ops s_ex [ONew 9; OAppend; OSetImp (TCell 9) p 2; OSetImp (TCell 9) n 3; OSetVol (TCell 9) 4; ODelVol (TCell 1)]) = true.
+Proof. split; vm_compute; reflexivity. Qed.
 
 (* the two documented refusals (no file is produced; side conditions imp_data_ok / fill_ok) *)
 Example C09_refusal_particle_not_in_cell :
-  write (run_ops s_ex [ONew 9; OSetU TScratch 0; OAppend]) = Err EPartNotInCell.
+  write (run_ops s_ex [ONew 9; OAppend]) = Err EPartNotInCell.
 Proof. vm_compute. reflexivity. Qed.
